@@ -41,19 +41,12 @@ IsReadLike(ev) == ev.e \in {"read", "eof"} \/ (ev.e = "fail" /\ ev.op = "read")
 RECURSIVE StreamOf(_, _)
 StreamOf(obs, i) == IF i > Len(obs) THEN <<>>
                     ELSE (IF obs[i].e = "read" THEN obs[i].b ELSE <<>>) \o StreamOf(obs, i + 1)
-\* bytes received strictly before event index p
-RECURSIVE RecvBefore(_, _)
-RecvBefore(obs, p) == IF p <= 1 THEN 0
-                      ELSE RecvBefore(obs, p - 1) + (IF obs[p - 1].e = "read" THEN Len(obs[p - 1].b) ELSE 0)
-\* bytes written strictly before event index p
-RECURSIVE WrittenBefore(_, _)
-WrittenBefore(obs, p) == IF p <= 1 THEN <<>>
-                         ELSE WrittenBefore(obs, p - 1) \o (IF obs[p - 1].e = "write" THEN obs[p - 1].b ELSE <<>>)
-\* the last write before p (if any) is followed by a flush before p
-FlushedBefore(obs, p) ==
-  LET ws == {k \in 1..(p - 1) : obs[k].e = "write" /\ obs[k].b # <<>>} IN
-  ws = {} \/ LET lw == CHOOSE k \in ws : \A j \in ws : j <= k
-             IN \E f \in (lw + 1)..(p - 1) : obs[f].e = "aflush"
+\* rs[p] = number of bytes received strictly before event p (built in one pass)
+RECURSIVE RecvSeqR(_, _, _, _)
+RecvSeqR(obs, p, acc, out) ==
+  IF p > Len(obs) THEN out
+  ELSE RecvSeqR(obs, p + 1, acc + (IF obs[p].e = "read" THEN Len(obs[p].b) ELSE 0), Append(out, acc))
+RecvSeq(obs) == RecvSeqR(obs, 1, 0, <<>>)
 
 \* handler / error events with their position in obs
 RECURSIVE SemOf(_, _)
@@ -69,24 +62,26 @@ MatchLines(vs, k, x, i) ==
   IF k > Len(vs) THEN i = Len(x) + 1
   ELSE \E j \in MatchAt(vs[k].v, x, i) : j <= Len(x) /\ x[j] = NL /\ MatchLines(vs, k + 1, x, j + 1)
 
-\* first read-like event issued when at least T bytes had been delivered (0 if none)
-Deadline(obs, T) ==
-  LET ps == {p \in 1..Len(obs) : IsReadLike(obs[p]) /\ RecvBefore(obs, p) >= T} IN
-  IF ps = {} THEN 0 ELSE CHOOSE p \in ps : \A r \in ps : p <= r
+\* first read-like event at or after index p0 issued when at least T bytes had been
+\* delivered (0 if none)
+RECURSIVE DeadlineFrom(_, _, _, _)
+DeadlineFrom(obs, rs, T, p) ==
+  IF p > Len(obs) THEN 0
+  ELSE IF IsReadLike(obs[p]) /\ rs[p] >= T THEN p ELSE DeadlineFrom(obs, rs, T, p + 1)
 
 \* obs index of the sem event consumed last by a matcher state (0 if none)
 LastIx(sem, st) == IF st.i = 1 THEN 0 ELSE sem[st.i - 1].ix
 
 \* messages from stream offset pos on; S = matcher states (ScpiRun); returns the states
 \* after the last complete message, marked free where pinned territory ends
-RECURSIVE ProcMsgs(_, _, _, _, _, _, _)
-ProcMsgs(cfg, N, S, X, pos, obs, sem) ==
+RECURSIVE ProcMsgs(_, _, _, _, _, _, _, _, _)
+ProcMsgs(cfg, N, S, X, pos, obs, sem, rs, p0) ==
   IF S = {} THEN {}
   ELSE IF \E st \in S : st.free THEN {CHOOSE st \in S : st.free}
   ELSE IF pos > Len(X) THEN S
   ELSE LET m == MsgScan(X, pos) IN
        IF m.kind \in {"partial", "free"} \/ m.len - pos + 1 > N THEN {Freed(CHOOSE st \in S : TRUE)}
-       ELSE LET dl == Deadline(obs, m.len)
+       ELSE LET dl == DeadlineFrom(obs, rs, m.len, p0)
                 after == UNION {MsgFrom(cfg, [st EXCEPT !.room = N], <<>>, m.units, 1, sem, m.emb, "proc") : st \in S}
                 \* C10: everything this message caused precedes the next read
                 timely == {st \in after : st.free \/ dl = 0 \/ LastIx(sem, st) < dl}
@@ -94,15 +89,27 @@ ProcMsgs(cfg, N, S, X, pos, obs, sem) ==
             IN \* a transport error ends process at once: messages not yet started stay unexecuted
                IF cut /\ \A st \in S : st.i = Len(sem) + 1 THEN S
                ELSE IF cut /\ timely = {} THEN {Freed(CHOOSE st \in S : TRUE)}
-               ELSE ProcMsgs(cfg, N, timely, X, m.len + 1, obs, sem)
+               ELSE ProcMsgs(cfg, N, timely, X, m.len + 1, obs, sem, rs, IF dl = 0 THEN p0 ELSE dl)
 
 \* C10/C04: at every read-like event the transport has received exactly the responses of
-\* the queries executed before it, flushed
-WritesOk(obs, st) ==
-  \A p \in 1..Len(obs) :
-     IsReadLike(obs[p]) =>
-        /\ MatchLines(SelectSeq(st.owed, LAMBDA o : o.at < p), 1, WrittenBefore(obs, p), 1)
-        /\ FlushedBefore(obs, p)
+\* the queries executed before it, and the last write has been flushed.  One pass over the
+\* events: W = bytes written since the last read-like event, k = first owed response not
+\* yet accounted for, fl = no write since the last flush.
+RECURSIVE OwedUpTo(_, _, _)
+OwedUpTo(owed, k, p) == IF k <= Len(owed) /\ owed[k].at < p THEN OwedUpTo(owed, k + 1, p) ELSE k
+RECURSIVE WritesWalk(_, _, _, _, _, _)
+WritesWalk(obs, owed, p, W, k, fl) ==
+  IF p > Len(obs) THEN TRUE
+  ELSE LET ev == obs[p] IN
+       CASE ev.e = "write" -> WritesWalk(obs, owed, p + 1, W \o ev.b, k, fl /\ ev.b = <<>>)
+         [] ev.e = "aflush" -> WritesWalk(obs, owed, p + 1, W, k, TRUE)
+         [] IsReadLike(ev) ->
+              LET k2 == OwedUpTo(owed, k, p) IN
+              /\ fl
+              /\ MatchLines(SubSeq(owed, k, k2 - 1), 1, W, 1)
+              /\ WritesWalk(obs, owed, p + 1, <<>>, k2, TRUE)
+         [] OTHER -> WritesWalk(obs, owed, p + 1, W, k, fl)
+WritesOk(obs, st) == WritesWalk(obs, st.owed, 1, <<>>, 1, TRUE)
 
 \* C10: ends only by returning the transport's error, at once; C05: sane reads, no panic
 EndOk(N, obs) ==
@@ -118,7 +125,7 @@ EndOk(N, obs) ==
 ProcEnd(cfg, N, obs) ==
   LET X == StreamOf(obs, 1)
       sem == SemOf(obs, 1)
-      S == ProcMsgs(cfg, N, {St0(<<>>, N)}, X, 1, obs, sem)
+      S == ProcMsgs(cfg, N, {St0(<<>>, N)}, X, 1, obs, sem, RecvSeq(obs), 1)
   IN {st \in S : st.free \/ (WritesOk(obs, st) /\ st.i = Len(sem) + 1)}
 
 ProcAccepts(cfg, N, obs) == EndOk(N, obs) /\ ProcEnd(cfg, N, obs) # {}
